@@ -1,5 +1,5 @@
 """C14 -- optimized field classes compute the same values as the reference field classes."""
-from .. import fieldbig, machine
+from .. import fieldbig, machine, polyeuclid
 from . import c08
 
 
@@ -13,3 +13,5 @@ def run(ctx):
     c08.field_tables(ctx, lite=True)
     # full size: reference and optimized built-in classes on the same operands against the same BigNat model
     fieldbig.big_tables(ctx)
+    # step level: FQP.inv of both families runs the same extended-Euclid steps (PolyEuclid.tla), state by state
+    polyeuclid.poly_euclid_checks(ctx, model_check=False)
